@@ -971,6 +971,10 @@ class AbsInt:
             sg = v.sign()
             if sg is not None:
                 return sg != 0
+        if hasattr(v, 'absint_len'):
+            n = v.absint_len()
+            if isinstance(n, int):
+                return n > 0
         if type(v).__name__ == 'SStr':
             return bool(v.segs)
         return self.decide(node, f'truth of {v!r}')
@@ -1299,6 +1303,22 @@ class AbsInt:
             key = f.name
             if key in self.summaries:
                 return self.summaries[key](self, args, kwargs, node)
+            if key in ('itertools.chain.from_iterable', 'chain.from_iterable') and len(args) == 1:
+                out = []
+                for part in self.iterate(args[0], node, keep_vars=True):
+                    out.extend(self.iterate(part, node, keep_vars=True))
+                return AList(out, 'list')
+            if key in ('itertools.chain', 'chain'):
+                out = []
+                for part in args:
+                    out.extend(self.iterate(part, node, keep_vars=True))
+                return AList(out, 'list')
+            if key in ('operator.attrgetter', 'attrgetter') and len(args) == 1 and isinstance(args[0], str):
+                return ('attrgetter', args[0])
+            if key in ('operator.itemgetter', 'itemgetter') and len(args) == 1:
+                return ('itemgetter', args[0])
+            if key in ('itertools.islice', 'islice') and len(args) == 2 and isinstance(args[1], int):
+                return AList(self.iterate(args[0], node, keep_vars=True)[:args[1]], 'list')
             return Opaque(f'external {f.name}')
         if f is isinstance:
             return self.isinstance_(args, node)
@@ -1369,6 +1389,13 @@ class AbsInt:
                 return a0
         if isinstance(f, tuple) and f and f[0] == 'lambda':
             return self.call_lambda(f, list(args))
+        if isinstance(f, tuple) and len(f) == 2 and f[0] == 'attrgetter' and len(args) == 1:
+            obj = args[0]
+            if isinstance(obj, AObj) and f[1] in obj.attrs:
+                return obj.attrs[f[1]]
+            return Opaque('attrgetter')
+        if isinstance(f, tuple) and len(f) == 2 and f[0] == 'itemgetter' and len(args) == 1:
+            return self.index(args[0], f[1], node)
         if f in (round, int, float, abs) and len(args) == 1 and isinstance(args[0], (Poly, Wrapped)):
             if f is float or (f is abs and isinstance(args[0], Poly) and args[0].sign() in (0, 1)):
                 return args[0]
@@ -1549,9 +1576,31 @@ class AbsInt:
             if name in ('items', 'keys', 'values', 'copy') and not args:
                 r = getattr(base, name)()
                 return list(r) if name != 'copy' else ADict(r)
+            if name == 'get' and args and isinstance(args[0], AV) and not args[0].is_top:
+                lo, hi = args[0].interval()
+                keys = [k for k in base if isinstance(k, int) and lo <= k <= hi]
+                dflt = args[1] if len(args) > 1 else None
+                if not keys:
+                    return dflt
+                vals = [base[k] for k in keys]
+                if len(keys) == hi - lo + 1 and all(v is vals[0] or v == vals[0] for v in vals):
+                    return vals[0]
+                return Opaque('dict.get with a symbolic key')
             if name == 'get':
                 return Opaque('dict.get')
             return _NO
+        if isinstance(base, AList) and name in ('startswith', 'endswith') and len(args) == 1 and isinstance(args[0], (bytes, bytearray)) \
+                and len(args[0]) == 1:
+            if not base.items:
+                return False
+            it = base.items[0] if name == 'startswith' else base.items[-1]
+            if isinstance(it, int):
+                return it == args[0][0]
+            if isinstance(it, AV) and not it.is_top:
+                lo, hi = it.interval()
+                if not lo <= args[0][0] <= hi:
+                    return False
+            return self.decide(node, f'{name} on symbolic bytes')
         if isinstance(base, AList):
             if name == 'append':
                 base.items.append(args[0])
